@@ -3157,6 +3157,8 @@ status_t MessageField :: TemplatedUnflatten(Message & unflattenTo, const String 
             MessageRef subMsg = GetMessageFromPool();
             MRETURN_ON_ERROR(subMsg);
 
+            if (itemSize > calcSizeUnflat.GetNumBytesAvailable()) return B_BAD_DATA;  // the peer-declared size must fit inside what we actually received
+
             DataUnflattener tempUnflat(calcSizeUnflat.GetCurrentReadPointer(), itemSize);
             MRETURN_ON_ERROR(subMsg()->TemplatedUnflatten(*static_cast<const Message *>(GetItemAtAsRefCountableRef(i)()), tempUnflat));
             MRETURN_ON_ERROR(calcSizeUnflat.SeekRelative(itemSize));
